@@ -255,3 +255,52 @@ def forward_taint(fn, is_source_place):
         if t["k"] == "switch" and t["discr"]["k"] in ("copy", "move") and place_tainted(t["discr"]["pl"]):
             sinks.append(b)
     return T, sinks, sorted(set(first))
+
+
+def origins_ip(P, fn, op, depth=3, _seen=None):
+    """origins() that follows a parameter of a (non-closure) function to the matching argument at every call site of that function,
+    and a closure parameter to the receiver of the combinator call the closure is handed to.  Returns [(function, Origin)] leaves;
+    a parameter of a function without callers stays an `arg` leaf."""
+    _seen = _seen if _seen is not None else set()
+    out = []
+    for o in origins(fn, op, depth=12):
+        if o.kind != "arg" or depth <= 0:
+            out.append((fn, o))
+            continue
+        if fn.kind == "Closure":
+            if o.arg < 2:
+                out.append((fn, o))
+                continue
+            owner = fn
+            while owner.kind == "Closure" and owner.parent_key in P.fns:
+                owner = P.fns[owner.parent_key]
+            hosts = [owner]
+            st = list(P.children.get(owner.key, []))
+            while st:
+                ch = st.pop()
+                hosts.append(ch)
+                st.extend(P.children.get(ch.key, []))
+            raw_key = fn.key[4:] if fn.key.startswith("bin/") else fn.key
+            found = False
+            for h in hosts:
+                for c in h.calls:
+                    if raw_key in (c.func.get("closure_args") or []) and c.args and (h.key, id(c)) not in _seen:
+                        _seen.add((h.key, id(c)))
+                        found = True
+                        out.append((h, Origin("call", call=c)))
+                        out += origins_ip(P, h, c.args[0], depth - 1, _seen)
+            if not found:
+                out.append((fn, o))
+            continue
+        callers = [(g, c2) for g in P.fns.values() if g.target == fn.target for c2 in g.calls if fn.key in P.callee_keys(g, c2)]
+        # keep projections of the parameter (e.g. `pattern.group_index`): the caller's argument is the whole parameter
+        if o.place is not None and o.place["p"] and any(isinstance(e, dict) and "f" in e for e in o.place["p"]):
+            out.append((fn, o))
+            continue
+        if not callers or fn.key in _seen:
+            out.append((fn, o))
+            continue
+        for g, c2 in callers:
+            if o.arg - 1 < len(c2.args):
+                out += origins_ip(P, g, c2.args[o.arg - 1], depth - 1, _seen | {fn.key})
+    return out
